@@ -188,7 +188,11 @@ def run(ctx, R, tier):
     from ..report import Rules
     from . import c13
     R13 = Rules("C13")
-    c13.run(ctx, R13, tier)
+    try:
+        c13.run(ctx, R13, tier)
+    except AnalysisError as _shared_x:
+        # the other property's own anchors are gone on this tree: its check reports that; what it produced before is still shared
+        R.note("obligations shared from C13 are incomplete on this tree: %s" % _shared_x)
     for o in R13.obs:
         if o.key in ("C13-R4|ClientConnectionJob.__call__|handlers-cannot-fail", "C13-R4|SocketServer_Multiplex.events|handlers-cannot-fail"):
             R.add("C09-R3", "connection-end|" + o.key.split("|", 1)[1], o.desc + " (an error inside the handler skips the close() that drops the session instances)", o.ok, o.loc, o.detail)
